@@ -142,6 +142,18 @@ CHECKS = {
          "Trusted: build_obj/build_ar/closure in pyprops/c20.py. Big-endian objects are unsupported by the importer: a "
          "clean rejection (exit 1, no file) is accepted for them. Only global FUNC symbols with sizes and R_MIPS_26 "
          "against globals are generated.", "DESIGN.md 3/C20"),
+ "C08": ("hypothesis+nvserve",
+         "exhaustive in-harness enumeration of all leading 16-bit patterns x 3 tails per CPU + seeded range windows and whole-image runs",
+         "Generated-input search (enumeration as the degenerate generator): for each of the 68 CPUs all 65,536 leading "
+         "16-bit patterns x 3 tails are decoded in forked children of the sanitized worker into an exactly-128-byte "
+         "heap buffer; every decode must terminate, be NUL-terminated, have unit <= length <= L_max and a multiple of "
+         "the unit, be deterministic, and not change when all bytes after it (for defined encodings) or before it "
+         "change. 25/400 seeded windows per CPU are run through disasm_range_<cpu> in a forked child with a time limit "
+         "and the printed address column must be exactly the chain of decoder lengths up to a chain-aligned end; "
+         "whole images crossing 64 KiB pages are run through 'naken_util -disasm' and every loaded byte must be shown.",
+         "L_max table in pyprops/c08.py. Locality is not demanded of an encoding the decoder itself reports as undefined. "
+         "tms1000/tms1100 print a chip-specific address notation (range part not covered). Nine decoder-level defects are "
+         "listed as open findings by exact leading-pattern sets.", "DESIGN.md 3/C08"),
 }
 
 NOT_YET = "check not built yet (work in progress; see DESIGN.md section 3)"
